@@ -14,6 +14,12 @@
   where git would have to merge or would refuse because a path carries both staged and unstaged
   changes.
 
+  Layout: the paths of a state are relative to the top of the Git work tree; the Xvc root may be
+  that directory or any subdirectory of it (`xvc init` in `repo/proj/`).  The only place where the
+  Xvc root enters is the pathspec of `git add` (`isXvcPathAt root`); every other git process xvc
+  starts (`diff --cached`, `stash push --staged`, `stash pop --index`, `commit`, `reset`,
+  `checkout`) acts on the whole repository, whatever directory `-C` names.
+
   Import-free (core only) so that the driver links as a `lean_exe`.
 -/
 namespace Git
@@ -60,6 +66,16 @@ def Tree.apply (t : Tree) (ch : Change) : Tree := ch.foldl (fun t e => t.set e.1
     (`GITIGNORE_PATHSPEC`, `XVCIGNORE_PATHSPEC` in git.rs after C15-pathspec.patch). -/
 def isXvcPath (p : Path) : Bool :=
   p.head? == some ".xvc" || p.getLast? == some ".gitignore" || p.getLast? == some ".xvcignore"
+
+/-- The same pathspecs when the Xvc root is the directory `root` of the Git work tree (`root = []`:
+    Xvc root = Git root; `root = ["proj"]`: `xvc init` was run in `proj/`).  All paths of a `G` are
+    relative to the top of the Git work tree.  Every git process of `git.rs` runs with
+    `-C <xvc root>` (`exec_git`), and git interprets the pathspecs `<xvc_dir>`,
+    `:(glob)**/.gitignore`, `:(glob)**/.xvcignore` relative to that directory: a path outside
+    `root` is never matched, whatever its name (`dir/.gitignore` next to `proj/` is a user file);
+    a path below `root` is matched iff its remainder is an xvc path. -/
+def isXvcPathAt (root : Path) (p : Path) : Bool :=
+  root.isPrefixOf p && isXvcPath (p.drop root.length)
 
 /-- The pathspec before C15-pathspec.patch: `*.gitignore` / `*.xvcignore` match every path that
     merely ENDS in these strings (`*` matches `/` in a pathspec), e.g. `notes.gitignore`. -/
@@ -128,8 +144,16 @@ inductive Res (α : Type) where
 
 /-! ## the git commands xvc issues -/
 
-/-- `git diff --name-only --cached` -/
+/-- `git diff --name-only --cached`: ALL staged paths of the repository — without `--relative` the
+    listing does not depend on the directory git runs in (`-C <xvc root>`), so it is the same
+    whether the Xvc root is the Git root or a subdirectory of it. -/
 def diffCached (g : G) : List Path := Tree.diffNames g.headTree g.index
+
+/-- `git diff --name-only --relative --cached` run in the subdirectory `root`: only the staged
+    paths below `root` are listed.  NOT what `stash_user_staged_files` runs; kept (with
+    `gitAutoCommitRelative`) for the counterexample `C15_nested_relative_counterexample`. -/
+def diffCachedRelative (root : Path) (g : G) : List Path :=
+  (diffCached g).filter (fun p => root.isPrefixOf p)
 
 /-- `git stash push --staged`: the staged changes go to a new stash entry and are reverted in the
     index AND in the work tree (a staged new file disappears, a staged deletion is re-created).
@@ -248,6 +272,27 @@ def gitAutoCommit (spec : Path → Bool) (g : G) (msg : String) (toBranch : Opti
   | .fail => ⟨g, .gitError⟩
   | .outside => ⟨g, .outside⟩
   | .ok (g1, staged) =>
+    let (g2, ok) := gitCommitXvcFiles spec g1 msg toBranch hookOk
+    if staged ≠ [] then
+      match stashPopIndex g2 with
+      | .ok g3 => ⟨g3, if ok then .ok else .gitError⟩
+      | .fail => ⟨g2, .gitError⟩
+      | .outside => ⟨g2, .outside⟩
+    else ⟨g2, if ok then .ok else .gitError⟩
+
+/-- A variant of `git_auto_commit` that is NOT in the code: `stash_user_staged_files` asks
+    `git diff --name-only --relative --cached` (`diffCachedRelative`) whether the user has staged
+    files.  With the Xvc root in a subdirectory and all staged changes outside it the answer is
+    empty, nothing is stashed, and `git commit` takes the user's index entries along
+    (`C15_nested_relative_counterexample`). -/
+def gitAutoCommitRelative (root : Path) (spec : Path → Bool) (g : G) (msg : String)
+    (toBranch : Option String) (hookOk : Bool) : Out :=
+  let staged := diffCachedRelative root g
+  let pushed : Res G := if staged ≠ [] then stashPushStaged g else .ok g
+  match pushed with
+  | .fail => ⟨g, .gitError⟩
+  | .outside => ⟨g, .outside⟩
+  | .ok g1 =>
     let (g2, ok) := gitCommitXvcFiles spec g1 msg toBranch hookOk
     if staged ≠ [] then
       match stashPopIndex g2 with
